@@ -204,13 +204,22 @@ def oracle_entry(st):
         i = "x"
     try:
         f = float(st)
-        ft = enc_str(repr(f)) + ":" + ("1" if math.isfinite(f) else "0")
+        ft = enc_str(repr(f)) + ":" + ("1" if math.isfinite(f) else "0") + ":" + ("1" if f == 0 else "0")
     except (ValueError, OverflowError):
         ft = "x"
     return f"{enc_str(st)} {i} {ft}"
 
 
+def py_nonzero_mantissa(st):
+    """The text test of the underflow guard (80b6126) as repair.py writes it (source text pinned in Pins_Repair.v)."""
+    return any(ch in "123456789" for ch in st.lower().split("e")[0])
+
+
+ORACLE_SEEN = set()
+
+
 def tok_oracle(cands):
+    ORACLE_SEEN.update(cands)
     return " ".join([f"O {len(cands)}"] + [oracle_entry(c) for c in cands])
 
 
@@ -358,6 +367,9 @@ def check_property(src, res, log, schema, fix):
         bad.append(("literal zone changed", None))
     # log == diff : consume chains in order (backtracking over chain lengths)
     pairs = [(a, b) for (_, a), (_, b) in zip(sa, ra)]
+    n_changed = sum(1 for a, b in pairs if not same_value(a.value, b.value))
+    if len(rlog) < n_changed:
+        bad.append((f"the log is not complete: {n_changed} values changed but only {len(rlog)} REPAIR entries were logged", None))
 
     def chains(i, j):
         """generator: every way to explain pairs[i:] with rlog[j:] as [(pair_index, [entries])] (chains of exact texts)"""
@@ -435,7 +447,10 @@ def check_property(src, res, log, schema, fix):
                     ex = exact_value_of_text(before.strip())
                     if ex is not None:
                         if newv == 0 and ex != 0:
-                            out.append((f"{a.key}: non-zero literal {before!r} became {newv!r}", "underflow"))
+                            # 80b6126 rejects this when the mantissa has an ASCII digit 1..9; what is left is a
+                            # literal whose non-zero mantissa digits are all non-ASCII decimal digits
+                            cl = None if py_nonzero_mantissa(before.strip()) else "underflow-nonascii"
+                            out.append((f"{a.key}: non-zero literal {before!r} became {newv!r}", cl))
                         elif isinstance(newv, int) and ex != newv:
                             out.append((f"{a.key}: integer text {before!r} became {newv!r}", None))
                         elif isinstance(newv, float) and newv != 0 and ex != 0:
@@ -476,6 +491,23 @@ NUM_TEXTS = ["42", "-7", "+5", "007", "1_000", " 42 ", "42 ", "\t42\n", "1.5", "
              "9" * 4400, "1" + "0" * 400, "0.1", "12345678901234567890.5", "1_0.5", "1__0", "_1", "1_", "42 ",
              "\x1f42\x1c", "0e0", "0.0", "-0", "-0.0", "0e-400", "0.000", "1e+22", "123456789012345678", "1.0e0",
              "1e400", "-.5e1", "+.5", "1.e1", "١e5", "1 000", "1e-323", "4.9e-324", "2.4e-324", "1E-400", "1e-9999"]
+# literals float() reads as +-0.0 although the mantissa is non-zero (must stay text since 80b6126) ...
+UNDERFLOW_TEXTS = ["1e-400", "-1e-400", "2e-324", "-2e-324", "4.9e-325", "0.1e-323", "1E-400", " 1e-400 ", "1.0e-400",
+                   "0.0001e-320", "+2.4e-324", "9_9e-400", "123456789e-340", "00.5e-324", ".1e-323", "1.e-324", "-1E-9999"]
+# ... zero in every notation float()/int() accepts (must still be coerced) ...
+ZERO_TEXTS = ["0", "-0", "+0", "00", "0_0", "0.0", "-0.0", "+0.0", ".0", "0.", "0.000", "-.0", "0e0", "0e5", "0E5", "-0e5",
+              "0.0e-999", "-0.0e-999", "0e-400", "0.0E+999", " 0e5\t", "0_0.0_0e1_0", "000.000e000"]
+# ... the same two classes written with non-ASCII decimal digits (finding C11-underflow-nonascii-digit) ...
+NONASCII_NUM_TEXTS = ["\uff11e-400", "-\u0664e-400", "0.0\uff11e-400", "\u0660e5", "\uff10.\uff10", "\uff11e-3",
+                      "\uff11\uff12\uff13\uff14\uff15\uff16\uff17\uff18\uff19\uff10\uff11\uff12\uff13\uff14\uff15\uff16\uff17\uff18\uff19"]
+# ... and integer texts that are not representable as a double: the repaired value must be the EXACT integer
+BIGINT_TEXTS = ["9007199254740993", "-9007199254740993", "9007199254740992", "-12345678901234567891", "18446744073709551617",
+                "100000000000000000000001", "12345678901234567", " 99999999999999999 ", "+36028797018963969",
+                "1_000_000_000_000_000_001", "007199254740993007199254740993"]
+PRIORITY_NUM_TEXTS = UNDERFLOW_TEXTS + ZERO_TEXTS + NONASCII_NUM_TEXTS + BIGINT_TEXTS
+NUM_TEXTS = NUM_TEXTS + [t for t in PRIORITY_NUM_TEXTS if t not in NUM_TEXTS]
+# texts that ARE repaired under TYPE[NUMBER]: used for the repeated-occurrence documents
+REPAIRABLE_NUM_TEXTS = ["42", "-7", "1.5", "1e5", " 42 ", "0e5", "9007199254740993", "007", "-0.0", "1_000"]
 WRONG_KINDS = ["int", "float", "true", "false", "none", "list", "map", "zone", "holo", "biglist"]
 
 
@@ -653,6 +685,74 @@ def build_doc_nodes(schema, rng, value_pool, n_extra=2):
     return nodes
 
 
+def chain_of(fd):
+    if fd.pattern is not None and fd.pattern.constraints is not None:
+        return fd.pattern.constraints.constraints
+    return []
+
+
+def has_number(fd):
+    from octave_mcp.core.constraints import TypeConstraint
+    return any(isinstance(c, TypeConstraint) and c.expected_type == "NUMBER" for c in chain_of(fd))
+
+
+def wrap_single(a, pos, main_name):
+    """One assignment at one of four document positions."""
+    A = _imports()
+    if pos == 0:
+        return [a]
+    if pos == 1:
+        return [A.Block(key=main_name, children=[a])]
+    if pos == 2:
+        return [A.Block(key="OUTER", target="T", children=[A.Block(key="IN", children=[a, A.Comment(text="c")])])]
+    return [A.Section(section_id="1", key="SEC", annotation=None, children=[a])]
+
+
+def build_repeat_doc(sd, rng):
+    """The SAME schema field name at 2..4 places of one document (nested occurrence, repeated item blocks, duplicate key,
+    sections, mixed) carrying the IDENTICAL repairable text.  -> (nodes, key, text, occurrences) or None."""
+    A = _imports()
+    from octave_mcp.core.constraints import EnumConstraint, TypeConstraint
+    cands = []
+    for k, fd in sd.fields.items():
+        for c in chain_of(fd):
+            if isinstance(c, EnumConstraint):
+                for m in c.allowed_values:
+                    for v in (m.lower(), m.upper(), m.swapcase(), m.title()):
+                        if v not in c.allowed_values:
+                            cands.append((k, v))
+            elif isinstance(c, TypeConstraint) and c.expected_type == "NUMBER":
+                cands += [(k, t) for t in REPAIRABLE_NUM_TEXTS]
+    if not cands:
+        return None
+    k, v = rng.choice(cands)
+    n = rng.randint(2, 4)
+
+    def mk():
+        return A.Assignment(key=k, value=v)
+
+    def other():
+        return A.Assignment(key=rng.choice(["EXTRA", "OTHER"]), value=rng.choice(["x", 7, "42"]))
+    style = rng.choice(["nested", "items", "dupkey", "section", "mixed"])
+    if style == "nested":
+        deeper = A.Block(key="DEEPER", children=[mk()])
+        inner = A.Block(key="INNER", children=([mk()] if n >= 3 else []) + [other(), deeper] + ([mk()] if n >= 4 else []))
+        nodes = [A.Block(key=sd.name, children=[mk(), other(), inner])]
+    elif style == "items":
+        nodes = [A.Block(key="ITEM_" + chr(65 + i), children=[mk(), other()]) for i in range(n)]
+    elif style == "dupkey":
+        nodes = [A.Block(key=sd.name, children=[mk() for _ in range(n)] + [other()])]
+    elif style == "section":
+        n = 3
+        nodes = [A.Section(section_id="1", key="SEC", annotation=None, children=[mk()]),
+                 A.Section(section_id="2", key="SEC2", annotation=None, children=[other(), mk(), A.Block(key="B", children=[mk()])])]
+    else:
+        n = 3
+        nodes = [mk(), A.Block(key=sd.name, target=rng.choice([None, "TGT"]), children=[other(), mk()]),
+                 A.Section(section_id="3", key="SEC", annotation=None, children=[mk()])]
+    return nodes, k, v, n, style
+
+
 def emit_text(nodes, name="DOC"):
     A = _imports()
     from octave_mcp.core.emitter import emit
@@ -693,10 +793,16 @@ def run(ctx):
         "= every field x every perturbation (each member in 5 case variants, every proper prefix in 3 cases, padded, "
         "suffixed, %d numeric notations incl. overflow/underflow/nan/inf/underscore/non-ASCII digits/4400 digits, %d "
         "wrong kinds) as a one-assignment document; (b) random documents with main block, nested block, section, "
-        "top-level occurrences of field names, extra/missing/duplicate keys. paths: repair() fix on/off, "
+        "top-level occurrences of field names, extra/missing/duplicate keys; (c) PRIORITY (never subsampled): every distinct "
+        "NUMBER field definition x %d texts = underflowing literals (1e-400, -1e-400, 2e-324, 4.9e-325, 0.1e-323, ...: must stay "
+        "text since 80b6126), zero in every notation (must be coerced), the same with non-ASCII digits, integer texts that are "
+        "not doubles (2^53+1, 20+ digits: the new value must be the exact int); (d) REPEAT documents: one schema field at 2-4 "
+        "places (nested, repeated item blocks, duplicate key, sections, mixed) with the identical repairable text -- #REPAIR "
+        "entries must be occurrences x entries of the one-assignment document; corpus/C11 (witnesses of fixed findings, "
+        "expect unrepaired) replayed FIRST through repair(), octave_validate(fix), octave_write(lenient). paths: repair() fix on/off, "
         "octave_validate fix on/off, octave_write(lenient, schema)+file, `octave validate --fix` (CliRunner). "
         "non-trivial = distinct (schema, document tokens) on which at least one value changed or a guard other than "
-        "`not a string` decided" % (len(FILE_FIELD_SPECS), len(NUM_TEXTS), len(WRONG_KINDS)))
+        "`not a string` decided" % (len(FILE_FIELD_SPECS), len(NUM_TEXTS), len(WRONG_KINDS), len(PRIORITY_NUM_TEXTS)))
     root = tempfile.mkdtemp(prefix="c11_")
     old_cwd = os.getcwd()
     try:
@@ -706,7 +812,11 @@ def run(ctx):
         os.chdir(old_cwd)
         shutil.rmtree(root, ignore_errors=True)
     ctx.assumptions += [
-        "int(text)/float(text)/repr(float)/math.isfinite of CPython are an oracle table handed to the model per case",
+        "int(text)/float(text)/repr(float)/math.isfinite(float)/(float == 0) of CPython are an oracle table handed to the model per case; "
+        "the mantissa test of the underflow guard is computed by the model (not an oracle) and compared on every oracle text",
+        "C11_repair_lossless_text / C11_repair_tbl_lossless_text assume a self-consistent oracle (zero repr text -> flagged == 0) and that int() "
+        "does not read a text with an ASCII digit 1..9 as 0: both are evaluated by the extracted tbl_float_consistent / tbl_int_zero_ok on "
+        "every oracle text of the run (driver command tblok)",
         "str.lower/str.strip are modelled for ASCII; cases with non-ASCII text are compared on the implementation only (counted as out_of_model)",
         "the schema loader / constraint parser are not modelled: the model receives the SchemaDefinition the real loader produced",
         "write path: whether validation found errors (the gate of the lenient repair) is taken from the real Validator",
@@ -715,8 +825,8 @@ def run(ctx):
 
 def classify(ctx, what, clause, case, path):
     fid = None
-    if clause == "underflow":
-        fid = "C11-underflow-to-zero"
+    if clause == "underflow-nonascii":
+        fid = "C11-underflow-nonascii-digit"
     elif clause == "cli-no-log":
         fid = "C11-cli-fix-no-log"
     ctx.hist("property_failures", fid or "unattributed")
@@ -730,20 +840,34 @@ def _run(ctx, root, have_model, parse):
     rng = ctx.rng
     file_schemas = make_file_schemas(ctx, root)
     api_schemas = make_api_schemas(ctx)
+    # -------- corpus FIRST: minimised past failures and the witnesses of FIXED findings ---------------------
+    # corpus/C11/*.json = {"schema_name", "schema_text", "doc_text", ["expect": "unrepaired" | "repaired"]}; each is
+    # replayed through repair(), octave_validate(fix=true) and octave_write(lenient, schema)+file
+    corpus_dir = os.path.join(os.path.dirname(os.path.dirname(os.path.dirname(os.path.abspath(__file__)))), "corpus", "C11")
+    if os.path.isdir(corpus_dir):
+        for fn in sorted(os.listdir(corpus_dir)):
+            if fn.endswith(".json"):
+                c = json.load(open(os.path.join(corpus_dir, fn), encoding="utf-8"))
+                c["corpus_file"] = fn
+                try:
+                    replay_corpus_case(ctx, root, c, parse)
+                except Exception as e:  # noqa
+                    ctx.obligation_failure("corpus:" + fn, f"{type(e).__name__}: {e}")
     # -------- (F) finding witnesses --------------------------------------------------------------
     for fid, f in ctx.known.items():
         w = f["witness"]
         try:
-            if fid == "C11-underflow-to-zero":
+            if fid == "C11-underflow-nonascii-digit":
                 from octave_mcp.core.constraints import ConstraintChain, TypeConstraint
                 from octave_mcp.core.holographic import HolographicPattern
                 from octave_mcp.core.schema_extractor import FieldDefinition, SchemaDefinition
                 sd = SchemaDefinition(name="W", fields={w["field"]: FieldDefinition(
                     name=w["field"], pattern=HolographicPattern(example="1", constraints=ConstraintChain(
                         [TypeConstraint(expected_type="NUMBER")]), target=None))})
-                res, log = impl_repair([A.Assignment(key=w["field"], value=w["value"])], sd, True)
-                still = isinstance(res[0].value, float) and res[0].value == 0.0 and exact_value_of_text(w["value"]) != 0
-                ctx.finding_witness(fid, still)
+                src = [A.Assignment(key=w["field"], value=w["value"])]
+                res, log = impl_repair(src, sd, True)
+                cl = [c for _, c in check_property(src, res, log, sd, True)]
+                ctx.finding_witness(fid, cl == ["underflow-nonascii"])
             elif fid == "C11-cli-fix-no-log":
                 still = replay_cli_witness(root, w)
                 ctx.finding_witness(fid, still)
@@ -763,34 +887,43 @@ def _run(ctx, root, have_model, parse):
                 if key in seen_sweep:
                     continue
                 seen_sweep.add(key)
-                pos = len(cases) % 4
-                a = A.Assignment(key=k, value=copy.deepcopy(v))
-                if pos == 0:
-                    nodes = [a]
-                elif pos == 1:
-                    nodes = [A.Block(key=sd.name, children=[a])]
-                elif pos == 2:
-                    nodes = [A.Block(key="OUTER", target="T", children=[A.Block(key="IN", children=[a, A.Comment(text="c")])])]
-                else:
-                    nodes = [A.Section(section_id="1", key="SEC", annotation=None, children=[a])]
+                nodes = wrap_single(A.Assignment(key=k, value=copy.deepcopy(v)), len(cases) % 4, sd.name)
                 cases.append((sd, label, nodes, "sweep"))
     if ctx.quick() and len(cases) > 9000:
         keep = cases[::max(1, len(cases) // 9000)]
         cases = keep
     n_sweep = len(cases)
+    # priority cases (NEVER subsampled, every tier): every distinct NUMBER field definition x every underflowing literal,
+    # zero notation, non-ASCII-digit literal and integer text that is not a double
+    prio, seen_prio = [], set()
+    for sd, label in all_schemas:
+        for k, fd in sd.fields.items():
+            if not has_number(fd):
+                continue
+            key = (label.split(":")[0], tok_schema(type(sd)(name="x", fields={k: fd})))
+            if key in seen_prio:
+                continue
+            seen_prio.add(key)
+            for j, v in enumerate(PRIORITY_NUM_TEXTS):
+                prio.append((sd, label, wrap_single(A.Assignment(key=k, value=v), (j + len(seen_prio)) % 4, sd.name), "priority"))
+    # repeated occurrences of one field with the identical repairable text
+    repeat_meta = {}
+    reps = []
+    for _ in range(ctx.scale(600, 8000)):
+        sd, label = rng.choice(all_schemas)
+        r = build_repeat_doc(sd, rng)
+        if r is not None:
+            repeat_meta[id(r[0])] = r[1:]
+            reps.append((sd, label, r[0], "repeat"))
+    cases = prio + reps + cases
+    ctx.extra["priority_cases"] = len(prio)
+    ctx.extra["repeat_docs"] = len(reps)
     pools = {}
     for sd, label in all_schemas:
         pools[label] = {k: perturbed_values_for(fd, rng) for k, fd in sd.fields.items()}
     for _ in range(ctx.scale(1500, 40000)):
         sd, label = rng.choice(all_schemas)
         cases.append((sd, label, build_doc_nodes(sd, rng, pools[label]), "random"))
-    # corpus (minimised past failures): corpus/C11/*.json with {"schema_text":..., "doc_text":...}
-    corpus_dir = os.path.join(os.path.dirname(os.path.dirname(os.path.dirname(os.path.abspath(__file__)))), "corpus", "C11")
-    corpus_cases = []
-    if os.path.isdir(corpus_dir):
-        for fn in sorted(os.listdir(corpus_dir)):
-            if fn.endswith(".json"):
-                corpus_cases.append(json.load(open(os.path.join(corpus_dir, fn))))
     # -------- repair() direct: implementation, property, model ---------------------------------------
     lines, idx = [], []
     impl_results = []
@@ -810,9 +943,28 @@ def _run(ctx, root, have_model, parse):
             ctx.hist("doc_assignments", min(len(flat_assignments(nodes)), 12))
             for e in log:
                 ctx.hist("rule", e[0])
-            case = {"schema": label, "schema_tokens": tok_schema(sd), "doc": _safe_tok(nodes), "fix": fix}
+            ctx.hist("case_kind", kind)
+            case = {"schema": label, "schema_tokens": tok_schema(sd), "doc": _safe_tok(nodes), "fix": fix, "kind": kind,
+                    "text_values": [a.value for _, a in flat_assignments(nodes) if isinstance(a.value, str)][:8]}
             for what, clause in check_property(nodes, res, log, sd, fix):
                 classify(ctx, what, clause, case, "repair()")
+            if fix and kind == "repeat":
+                # every occurrence of (field, identical text) must get the same new value and its own log entries:
+                # #entries == occurrences x #entries of the one-assignment document
+                k, v, n_occ, style = repeat_meta[id(nodes)]
+                ctx.hist("repeat_style", style)
+                _, log1 = impl_repair([A.Assignment(key=k, value=v)], sd, True)
+                mine = log      # the other assignments of a repeat document use keys outside every schema
+                occ = [(a, b) for (_, a), (_, b) in zip(flat_assignments(nodes), flat_assignments(res)) if a.key == k and a.value == v]
+                newvals = {tok_value(b.value) for _, b in occ}
+                changed_occ = sum(1 for a, b in occ if not same_value(a.value, b.value))
+                ctx.hist("repeat_changed_occurrences", changed_occ)
+                if len(occ) != n_occ or len(newvals) != 1:
+                    classify(ctx, f"{n_occ} identical occurrences of {k}={v!r} were repaired to different values {sorted(newvals)}",
+                             None, case, "repair() repeated field")
+                if len(mine) != n_occ * len(log1):
+                    classify(ctx, f"{n_occ} identical occurrences of {k}={v!r}: expected {n_occ}x{len(log1)} REPAIR entries, "
+                                  f"the log has {len(mine)} ({changed_occ} values changed)", None, case, "repair() repeated field")
             if fix:
                 # idempotence (document level, every schema; log level for simple chains is the model's theorem)
                 res2, log2 = impl_repair(res, sd, True)
@@ -848,16 +1000,22 @@ def _run(ctx, root, have_model, parse):
             if got != exp:
                 ctx.correspondence_failure({"case": case, "impl": exp[:600], "model": got[:600]}, "repair(): model and implementation differ")
     ctx.extra["sweep_cases"] = n_sweep
-    ctx.extra["random_docs"] = len(cases) - n_sweep
+    ctx.extra["random_docs"] = sum(1 for c in cases if c[3] == "random")
     # -------- tool paths (file schemas only; text goes through emit/parse) ------------------------------
     from octave_mcp.mcp.validate import ValidateTool
     from octave_mcp.mcp.write import WriteTool
     from octave_mcp.core.validator import Validator
     from click.testing import CliRunner
     from octave_mcp.cli.main import cli
-    tool_cases = [c for c in cases if c[1].startswith("file:")]
+    file_cases = [c for c in cases if c[1].startswith("file:")]
+    must = [c for c in file_cases if c[3] == "priority"]
+    if ctx.quick():     # quick tier: the plain NUMBER field only (every priority text), thorough: every NUMBER field
+        must = [c for c in must if "COUNT" in c[0].fields and flat_assignments(c[2])[0][1].key == "COUNT"]
+    must += [c for c in file_cases if c[3] == "repeat"][:ctx.scale(60, 1500)]
+    tool_cases = [c for c in file_cases if c[3] != "priority"]
     rng.shuffle(tool_cases)
-    tool_cases = tool_cases[:ctx.scale(450, 12000)]
+    tool_cases = must + tool_cases[:ctx.scale(390, 12000)]
+    ctx.extra["tool_priority_and_repeat_cases"] = len(must)
     m_lines, m_idx = [], []
     n_tool = 0
     for sd, label, nodes, kind in tool_cases:
@@ -881,7 +1039,8 @@ def _run(ctx, root, have_model, parse):
         ctx.hist("tool_cases", "run")
         n_tool += 1
         case = {"schema": label, "schema_name": name, "schema_text": open(os.path.join(root, "specs", "schemas", name.lower() + ".oct.md")).read(),
-                "doc_text": text}
+                "doc_text": text, "kind": kind}
+        ctx.hist("tool_case_kind", kind)
         in_model = have_model and is_ascii_case(src, sd)
         # ---- octave_validate fix on / off
         for fix in (True, False):
@@ -982,21 +1141,72 @@ def _run(ctx, root, have_model, parse):
                 ctx.nontrivial(("meta", status, with_type))
             elif log:
                 classify(ctx, "REPAIR entry logged without a change", None, case, "octave_write(META)")
-    # -------- corpus --------------------------------------------------------------------------------
-    for c in corpus_cases:
-        try:
-            sp = os.path.join(root, "specs", "schemas", c["schema_name"].lower() + ".oct.md")
-            with open(sp, "w", encoding="utf-8") as f:
-                f.write(c["schema_text"])
-            from octave_mcp.schemas.loader import load_schema
-            sd = load_schema(sp)
-            src = parse(c["doc_text"]).sections
-            res, log = impl_repair(src, sd, True)
+    # -------- the oracle tables of this run satisfy the hypotheses of C11_repair_tbl_lossless_text; mantissa test -----
+    if have_model:
+        ents = sorted(t for t in ORACLE_SEEN if t.isascii() and t)
+        t_lines = ["tblok " + tok_oracle(ents[i:i + 300]) for i in range(0, len(ents), 300)]
+        for ln, got in zip(t_lines, run_driver("rep", t_lines) if t_lines else []):
             ctx.count()
-            for what, clause in check_property(src, res, log, sd, True):
-                classify(ctx, what, clause, c, "corpus repair()")
-        except Exception as e:  # noqa
-            ctx.obligation_failure("corpus", f"{type(e).__name__}: {e}")
+            if got != "1 1":
+                ctx.obligation_failure("oracle-hypotheses", f"tbl_float_consistent/tbl_int_zero_ok = {got} on a table of this run: {ln[:300]}")
+        m_l = ["mant " + enc_str(t) for t in ents]
+        for t, got in zip(ents, run_driver("rep", m_l) if m_l else []):
+            ctx.count()
+            exp = ("1" if py_nonzero_mantissa(t) else "0") + " " + enc_str(t.lower().split("e")[0])
+            if got != exp:
+                ctx.correspondence_failure({"text": t, "impl": exp, "model": got}, "mantissa test: model and Python expression differ")
+        ctx.extra["oracle_texts_checked"] = len(ents)
+
+
+def replay_corpus_case(ctx, root, c, parse):
+    """One corpus case through repair(), octave_validate(fix=true), octave_write(lenient, schema)+file.
+    expect = "unrepaired": every path must return the source values unchanged with no REPAIR entry (witness of a FIXED
+    finding: a regression is an unattributed property failure -> VIOLATION)."""
+    import octave_mcp.core.ast_nodes as A
+    from octave_mcp.mcp.validate import ValidateTool
+    from octave_mcp.mcp.write import WriteTool
+    from octave_mcp.schemas.loader import load_schema
+    name = c["schema_name"]
+    sp = os.path.join(root, "specs", "schemas", name.lower() + ".oct.md")
+    with open(sp, "w", encoding="utf-8") as f:
+        f.write(c["schema_text"])
+    fp = os.path.join(root, "corpus_out.oct.md")
+    try:
+        sd = load_schema(sp)
+        text = c["doc_text"]
+        src = parse(text).sections
+        case = {k: c[k] for k in ("corpus_file", "schema_name", "schema_text", "doc_text", "expect") if k in c}
+        outs = []
+        res, log = impl_repair(src, sd, True)
+        outs.append(("corpus repair()", res, log))
+        r = asyncio.run(ValidateTool().execute(content=text, schema=name, fix=True))
+        if r.get("status") == "success" and isinstance(r.get("canonical"), str):
+            outs.append(("corpus octave_validate(fix=True)", parse(r["canonical"]).sections, log_from_dicts(r.get("repairs", []), "rule_id")))
+        else:
+            ctx.obligation_failure("corpus:" + c["corpus_file"], "octave_validate did not return a canonical document")
+        if os.path.exists(fp):
+            os.unlink(fp)
+        r = asyncio.run(WriteTool().execute(target_path=fp, content=text, lenient=True, schema=name))
+        if r.get("status") == "success" and os.path.exists(fp):
+            outs.append(("corpus octave_write(lenient)", parse(open(fp, encoding="utf-8").read()).sections,
+                         log_from_dicts(r.get("corrections", []), "code")))
+        else:
+            ctx.obligation_failure("corpus:" + c["corpus_file"], "octave_write(lenient, schema) did not write the document")
+        for path, out, lg in outs:
+            ctx.count()
+            ctx.hist("path", path)
+            for what, clause in check_property(src, out, lg, sd, True):
+                classify(ctx, what, clause, case, path)
+            changed = tok_doc(out) != tok_doc(src)
+            if c.get("expect") == "unrepaired" and (changed or lg):
+                classify(ctx, f"expected to be left unrepaired with an empty log, got changed={changed} log={lg}", None, case, path)
+            if c.get("expect") == "repaired" and not (changed and lg):
+                ctx.correspondence_failure({"case": case, "path": path}, "corpus case expected to be repaired (and logged) was left alone")
+        ctx.nontrivial(("corpus", c["corpus_file"]))
+    finally:
+        for q in (sp, fp):
+            if os.path.exists(q):
+                os.unlink(q)
 
 
 def replay_cli_witness(root, w):
